@@ -1,6 +1,6 @@
 (** RInv holds initially, is preserved by every op, and excludes every panic of the routing
-    core except the commit log's u64 overflow tag (and, in the dev profile, the two
-    debug_assert tags, which NoPanicDev.v excludes with a stronger invariant). *)
+    core except the commit log's u64 overflow tag (and, in the dev profile, the
+    check_tracker_duplicates debug_assert tag, which needs a stronger invariant). *)
 From Rumqtt Require Import Router.NoPanicLog.
 From Rumqtt Require Import Router.Model Router.Inv Router.InvLemmasPrim Router.InvLemmasSched Router.InvLemmasDl
   Router.InvLemmasRoute Router.InvLemmasConn Router.InvLemmasPkt Router.InvLemmasConsume.
@@ -132,7 +132,7 @@ Proof.
     exact (Forall_nthN (fun b => Forall packet_wf (lk_in b)) _ _ _ (ri_pkts _ _ HI) Hb).
   - destruct (slab_get (r_trackers st) id) as [t|] eqn:Ht; [|cbn [wp fst]; auto].
     destruct (RInv_trk_live _ _ _ _ HI Ht) as [c Hc].
-    apply wp_bind. wp_use reschedule_spec; [exact HI|eapply get_occ; exact Hc|].
+    apply wp_bind. wp_use reschedule_spec; [exact HI|eapply get_occ; exact Hc|discriminate|].
     intros st1 (H1 & _ & N1). cbn [wp fst]. split; [exact H1|congruence].
   - apply wp_bind. wp_use handle_disconnection_spec; [exact HI|exact Hn|]. intros st1 (H1 & H2 & _). cbn [wp fst]. auto.
   - apply wp_bind. wp_use retrieve_shadow_spec; [exact HI|exact Hn|]. intros st1 H1. cbn [wp fst]. exact H1.
@@ -170,7 +170,7 @@ Qed.
 (** which panics RInv leaves possible *)
 Theorem rinv_panic st orc o t :
   RInv st -> op_wf o -> step_with st orc o = Panic t ->
-  t = P_ADD \/ (cf_debug_assertions (r_cfg st) = true /\ (t = P_DBG_READY \/ t = P_DBG_DUP)).
+  t = P_ADD \/ (cf_debug_assertions (r_cfg st) = true /\ t = P_DBG_DUP).
 Proof.
   intros [HI Hn] Hwf Hs. pose proof (step_with_spec _ st orc o HI Hn Hwf) as H. rewrite Hs in H. exact H.
 Qed.
